@@ -11,7 +11,7 @@ import (
 func init() {
 	register("C19", &ruleSet{
 		run:    runC19,
-		floors: map[string]int{"O1": 2, "O2": 2},
+		floors: map[string]int{"O1": 2, "O2": 2, "O3": 30},
 		explain: "Decides the composition of the pools, from which the safety half ('never more than the limit held') follows through C01/C02 on the composed stack: (O1) on " +
 			"every path of NewFixedPool that returns a pool, the same fixedLimit parameter feeds the fixed limit and a precise strategy, the default limiter built from exactly " +
 			"that pair is the delegate of the blocking / queue wrapper stored in the pool for every ordering case, no case leaves the limiter unset, the backlog-size and timeout " +
@@ -24,8 +24,11 @@ func init() {
 func runC19(p *Prog, l *Ledger) {
 	l.Rule("O1", "wiring: limit and precise strategy from the same number, default limiter from that pair, wrapped on every ordering case; backlog size and (normalised) timeout forwarded")
 	l.Rule("O2", "pass-through: pool Acquire returns identically the wrapped limiter's results")
+	l.Rule("O3", "structural prerequisites of 'every queued caller is served' for the wrappers a pool is built from (decided by the C10 and C02 rules on the same tree): no lost wake-up / hand-off, no stranded or leaked token")
 	l.NotCovered = []string{"eventual service of every queued caller within the backlog timeout (liveness/timing); prerequisites are in C10", "ordering map is decided in C11/O3"}
 	limNamed := p.coreNamed("Limiter")
+	importObligations(p, l, "C10", "O3", nil)
+	importObligations(p, l, "C02", "O3", func(o *Obligation) bool { return o.Rule == "O3" || o.Rule == "O4" || o.Rule == "O2" })
 	n := 0
 	for _, T := range p.structTypes("patterns/pool") {
 		lf := fieldsOfType(T, limNamed)
